@@ -25,6 +25,7 @@ var instrumentedFuncs = map[string]bool{
 	"(*sync.Mutex).Lock": true, "(*sync.Mutex).Unlock": true, "(*sync.Mutex).TryLock": true,
 	"(*sync.RWMutex).Lock": true, "(*sync.RWMutex).Unlock": true, "(*sync.RWMutex).RLock": true, "(*sync.RWMutex).RUnlock": true,
 	"(*sync.RWMutex).TryLock": true, "(*sync.RWMutex).TryRLock": true,
+	"(*sync.Cond).Wait": true, "(*sync.Cond).Signal": true, "(*sync.Cond).Broadcast": true,
 	"(*sync.WaitGroup).Add": true, "(*sync.WaitGroup).Done": true, "(*sync.WaitGroup).Wait": true,
 	"runtime.Gosched": true, "time.Sleep": true,
 }
